@@ -1,49 +1,56 @@
 package vsched
 
+// RWState is the virtual state of a (RW)Mutex. Read sections are hashed commutatively: an
+// RLock depends only on the last write section, RUnlocks accumulate by addition into what the
+// next Lock depends on, so the order of concurrent readers is not part of the state key.
 type RWState struct {
 	writer  bool
 	readers int
-	ver     uint64
+	wver    uint64 // hash of the last Lock/Unlock event
+	racc    uint64 // sum of the RUnlock event hashes since the last Lock
 }
 
 func (m *RWState) canLock() bool  { return !m.writer && m.readers == 0 }
 func (m *RWState) canRLock() bool { return !m.writer }
-func (m *RWState) Name() string   { return "rwmutex" }
 
 func RWLock(m *RWState) {
 	t := point(pending{kind: OpLock, obj: m})
 	m.writer = true
-	m.ver = t.note(OpLock, m.ver)
+	m.wver = t.note(OpLock, mix(m.wver, m.racc))
+	m.racc = 0
 }
+
 func RWUnlock(m *RWState) {
 	t := point(pending{kind: OpUnlock, obj: m})
 	if !m.writer {
 		panic("sync: unlock of unlocked mutex")
 	}
 	m.writer = false
-	m.ver = t.note(OpUnlock, m.ver)
+	m.wver = t.note(OpUnlock, m.wver)
 }
+
 func RWRLock(m *RWState) {
 	t := point(pending{kind: OpRLock, obj: m})
 	m.readers++
-	m.ver = t.note(OpRLock, m.ver)
+	t.note(OpRLock, m.wver)
 }
+
 func RWRUnlock(m *RWState) {
 	t := point(pending{kind: OpRUnlock, obj: m})
 	if m.readers == 0 {
 		panic("sync: RUnlock of unlocked RWMutex")
 	}
 	m.readers--
-	m.ver = t.note(OpRUnlock, m.ver)
+	m.racc += t.note(OpRUnlock, 0)
 }
 
+// WGState is the virtual state of a WaitGroup; Add events commute (sum of event hashes).
 type WGState struct {
 	n   int
-	ver uint64
+	acc uint64
 }
 
-func (w *WGState) zero() bool   { return w.n == 0 }
-func (w *WGState) Name() string { return "waitgroup" }
+func (w *WGState) zero() bool { return w.n == 0 }
 
 func WGAdd(w *WGState, n int) {
 	t := point(pending{kind: OpWgAdd, obj: w})
@@ -51,9 +58,26 @@ func WGAdd(w *WGState, n int) {
 	if w.n < 0 {
 		panic("sync: negative WaitGroup counter")
 	}
-	w.ver = t.note(OpWgAdd, w.ver)
+	w.acc += t.note(OpWgAdd, uint64(int64(n)))
 }
+
 func WGWait(w *WGState) {
 	t := point(pending{kind: OpWgWait, obj: w})
-	t.note(OpWgWait, w.ver)
+	t.note(OpWgWait, w.acc)
+}
+
+// OnceState is the virtual state of a sync.Once.
+type OnceState struct {
+	done bool
+	m    RWState
+}
+
+func OnceDo(o *OnceState, f func()) {
+	RWLock(&o.m)
+	if !o.done {
+		defer func() { o.done = true; RWUnlock(&o.m) }()
+		f()
+		return
+	}
+	RWUnlock(&o.m)
 }
